@@ -107,6 +107,38 @@ pub struct Step {
 pub enum End {
     Drop,
     Forget,
+    /// finish through the iterator's own bulk methods (which an implementation may override): the rest is consumed by
+    /// `count()`, `last()`, `fold`, `rfold` or `step_by(2)`; every remaining item is reported and destroyed
+    Count,
+    Last,
+    Fold,
+    RFold,
+    StepBy2,
+}
+impl End {
+    pub const FINISHERS: [End; 5] = [End::Count, End::Last, End::Fold, End::RFold, End::StepBy2];
+    pub fn suffix(&self) -> &'static str {
+        match self {
+            End::Drop => "",
+            End::Forget => "+forget",
+            End::Count => "+count",
+            End::Last => "+last",
+            End::Fold => "+fold",
+            End::RFold => "+rfold",
+            End::StepBy2 => "+step_by",
+        }
+    }
+    /// What the finisher reports for the remaining items `rest` (front to back): (values, count report).
+    pub fn expected(&self, rest: &[Id]) -> (Vec<Val>, Option<usize>) {
+        match self {
+            End::Drop | End::Forget => (vec![], None),
+            End::Count => (vec![], Some(rest.len())),
+            End::Last => (vec![rest.last().map(|i| Val::Id(*i)).unwrap_or(Val::None)], None),
+            End::Fold => (rest.iter().map(|i| Val::Id(*i)).collect(), None),
+            End::RFold => (rest.iter().rev().map(|i| Val::Id(*i)).collect(), None),
+            End::StepBy2 => (rest.iter().step_by(2).map(|i| Val::Id(*i)).collect(), None),
+        }
+    }
 }
 
 /// Replacement sequence of a splice.
@@ -200,7 +232,7 @@ pub enum Op {
     /// drive a non-consuming iterator by an explicit next/next_back script (true = back);
     /// `clone_at`: clone the (shared) iterator before that step and drain the clone at the end
     /// `skips[n]` > 0 turns step n into `nth(k)` / `nth_back(k)`
-    IterScript { v: usize, how: IterHow, script: Vec<bool>, skips: Vec<u8>, clone_at: Option<usize> },
+    IterScript { v: usize, how: IterHow, script: Vec<bool>, skips: Vec<u8>, clone_at: Option<usize>, end: End },
     /// `clone_empty_in(target backend)`, move every element over and back (see rig)
     CloneEmptyIn { v: usize, target: Target },
     /// overwrite / swap element `at` of vector `v` through the given view (C13)
@@ -306,12 +338,13 @@ impl fmt::Display for Op {
     fn fmt(&self, f: &mut fmt::Formatter<'_>) -> fmt::Result {
         match self {
             Op::LazyMulti(m) => write!(f, "lazy^{}({:?} v{}[{}])x{:?}", m.depth, m.kind, m.w, m.j, m.uses),
-            Op::IterScript { v, how, script, skips, clone_at } => write!(
-                f, "v{v}.{how:?}|{}|clone@{clone_at:?}",
+            Op::IterScript { v, how, script, skips, clone_at, end } => write!(
+                f, "v{v}.{how:?}|{}|clone@{clone_at:?}{}",
                 script.iter().enumerate().map(|(n, b)| {
                     let k = skips.get(n).copied().unwrap_or(0);
                     if k > 0 { format!("{}+{k}", if *b { 'B' } else { 'F' }) } else { (if *b { "B" } else { "F" }).to_string() }
-                }).collect::<String>()
+                }).collect::<String>(),
+                end.suffix()
             ),
             Op::CloneEmptyIn { v, target } => write!(f, "v{v}.clone_empty_in({target:?})"),
             Op::ViewWrite { v, at, via, id, w, j } => write!(f, "v{v}[{}] <-{via:?}- #{id} (v{w}[{j}])", idstr(*at as u64)),
